@@ -198,6 +198,8 @@ impl Sender {
         //
         // All we do with the lock is call `send`, so there's no chance of any state being corrupted on
         // panic. Therefore it's safe to ignore the mutex poison.
+        #[cfg(feature = "verif")]
+        crate::verif::point("exec.enqueue");
         if let Err(e) = self
             .sender
             .lock()
@@ -216,6 +218,8 @@ impl Sender {
         }
 
         // If the executor is already awake, don't bother waking it up again.
+        #[cfg(feature = "verif")]
+        crate::verif::point("exec.notified_swap");
         if self.notified.swap(true, Ordering::SeqCst) {
             return;
         }
@@ -227,6 +231,8 @@ impl Sender {
 
 impl<T> Drop for Executor<T> {
     fn drop(&mut self) {
+        #[cfg(feature = "verif")]
+        crate::verif::point("exec.drop_take");
         let active_tasks = self.state.active_tasks.borrow_mut().take().unwrap();
 
         // Wake all of the active tasks in order to destroy their runnables.
@@ -241,11 +247,15 @@ impl<T> Drop for Executor<T> {
                 // into an abort.
                 //
                 // In the interest of not aborting without a good reason, we just drop the panic here.
+                #[cfg(feature = "verif")]
+                crate::verif::point("exec.drop_wake");
                 std::panic::catch_unwind(|| waker.wake()).ok();
             }
         }
 
         // Drain the queue in order to drop all of the runnables.
+        #[cfg(feature = "verif")]
+        crate::verif::point("exec.drop_drain");
         while self.state.incoming.try_recv().is_ok() {}
     }
 }
@@ -316,10 +326,23 @@ impl<T> EventSource for Executor<T> {
                 .source
                 .process_events(readiness, token, |(), &mut ()| {
                     // Set to the unnotified state.
+                    #[cfg(feature = "verif")]
+                    crate::verif::point("exec.notified_clear");
                     state.sender.notified.store(false, Ordering::SeqCst);
 
                     // Process runnables, but not too many at a time; better to move onto the next event quickly!
+                    #[cfg(feature = "verif")]
+                    let mut verif_polled = 0usize;
                     for _ in 0..1024 {
+                        #[cfg(feature = "verif")]
+                        {
+                            if verif_polled >= crate::verif::batch_limit("executor", 1024) {
+                                break;
+                            }
+                            verif_polled += 1;
+                        }
+                        #[cfg(feature = "verif")]
+                        crate::verif::point("exec.try_recv");
                         let runnable = match state.incoming.try_recv() {
                             Ok(runnable) => runnable,
                             Err(_) => {
